@@ -40,7 +40,8 @@ def produce_shape_map_according_to_input(sm_format, sgraph, namespaces_prefix_di
         if all_classes_mode:
             return translator.str_class_list_to_shape_map_sparql_selectors(str_list=[a_class for
                                                                                      a_class in
-                                                                                     sgraph.yield_classes_with_instances()],
+                                                                                     sgraph.yield_classes_with_instances(
+                                                                                         instantiation_property=instantiation_property)],
                                                                            instantiation_property=instantiation_property,
                                                                            limit_remote_instances=limit_remote_instances)
         else:
